@@ -76,6 +76,7 @@ impl<K, V, S> LruCache<K, V, S> {
         let mut nodes = Vec::with_capacity(items);
         let mut prev_addr = seal;
         let mut addr = seal_next;
+        let mut ptr = seal_entry.next.raw();
 
         // Forward: seal -> MRU -> ... -> LRU -> seal along `next`.
 
@@ -95,7 +96,7 @@ impl<K, V, S> LruCache<K, V, S> {
                     nodes.len()));
             }
 
-            let entry = unsafe { &*(addr as *const Entry<K, V>) };
+            let entry = unsafe { &*ptr };
             let node = VerifNode {
                 addr,
                 prev: entry.prev.addr(),
@@ -110,6 +111,7 @@ impl<K, V, S> LruCache<K, V, S> {
 
             prev_addr = addr;
             addr = node.next;
+            ptr = entry.next.raw();
             nodes.push(node);
         }
 
@@ -126,6 +128,7 @@ impl<K, V, S> LruCache<K, V, S> {
         // Backward: seal -> LRU -> ... -> MRU -> seal along `prev`.
 
         let mut addr = seal_prev;
+        let mut ptr = seal_entry.prev.raw();
         let mut count = 0usize;
 
         while addr != seal {
@@ -147,8 +150,9 @@ impl<K, V, S> LruCache<K, V, S> {
                     mirrored next-walk", count));
             }
 
-            let entry = unsafe { &*(addr as *const Entry<K, V>) };
+            let entry = unsafe { &*ptr };
             addr = entry.prev.addr();
+            ptr = entry.prev.raw();
             count += 1;
         }
 
